@@ -875,7 +875,7 @@ def run(ctx: Ctx) -> None:
     for n in range(1, 5):
         for h in dup_hierarchies(n):
             bare(h, "duplicate-bases")
-    nrand = 1500 if ctx.quick else 20000
+    nrand = 1000 if ctx.quick else 20000
     for _ in range(nrand):
         h = random_hierarchy(ctx.rng, ctx.rng.randint(6, 12))
         bare(h, "random")
@@ -886,7 +886,7 @@ def run(ctx: Ctx) -> None:
     # ---- mro._merge on arbitrary lists of lists (not only those a hierarchy produces)
     from pydoctor import mro as M
     mreq, mout, mpay = [], [], []
-    for _ in range(3000 if ctx.quick else 40000):
+    for _ in range(2000 if ctx.quick else 40000):
         k = ctx.rng.randint(0, 4)
         alpha = ctx.rng.randint(1, 5)
         ls = [[ctx.rng.randint(1, alpha) for _ in range(ctx.rng.randint(0, 4))] for _ in range(k)]
